@@ -109,6 +109,8 @@ def proof_items():
         ProofItem(cm.mapspec_input_keys, gen=_okey_gen),
         # what shape() rejects: surplus / missing arrays, rank mismatch, internal shape for a non-output
         ProofItem(cm.validate_shapes, gen=_vshape_gen),
+        # a renaming is simultaneous: every array gets the name the renaming gives to its own old name, axes unchanged
+        ProofItem(cm.mapspec_rename, gen=cm.rename_gen),
         # shape(): mask[p] <=> some input carries output axis p; a mapped axis has the size every input has along it,
         # an internal axis the next entry of the output's internal shape; ValueError exactly for what _validate_shapes
         # rejects, a zipped-size mismatch or a missing / short internal shape
